@@ -27,7 +27,10 @@ import (
 // with VERIF_C16_WORKER=1): a corrupted length field can make a party allocate
 // tens of gigabytes, which the Go runtime answers with an unrecoverable fatal
 // error.  The worker lowers its own address-space limit, the parent restarts a
-// dead worker and books the case as inconclusive.
+// dead worker and books the case as inconclusive.  The limit is deliberately
+// low: a large allocation that the runtime places on previously used heap pages
+// is zeroed completely (resident memory), so allocations that succeed must stay
+// small enough for many workers to run side by side.
 
 // Request is one unit of work for a worker: the honest layout of a session
 // (C == nil) or one corrupted run.
@@ -185,7 +188,7 @@ func handle(req Request) (rep Reply) {
 }
 
 func workerMemLimit() uint64 {
-	gb := 4.0
+	gb := 3.25
 	if s := os.Getenv("VERIF_C16_WORKER_MEM_GB"); s != "" {
 		if v, err := strconv.ParseFloat(s, 64); err == nil && v > 0 {
 			gb = v
